@@ -212,6 +212,80 @@ def msg_id_part(nthreads, ncalls):
 
 
 # ------------------------------------------------------------------------------------------------
+# part c: the building blocks used by every association must be re-entrant
+
+def thread_stress(n_threads=8, rounds=60):
+    """Encoding/decoding PDUs, fragmenting messages (bytes and file-like data sets), computing command group
+    lengths and classifying statuses happen in the threads of all associations at once.  Every operation is a pure
+    function of its own inputs: its result under heavy thread switching must equal the single-threaded result."""
+    import io
+    import sys
+    from .. import pdugen as g, dimsegen as dg, convs
+    from .c06 import default_fields
+    from pynetdicom2 import statuses, dimsemessages
+    case = {'part': 'thread-stress'}
+
+    def op_pdu(spec):
+        obj = g.build(spec)
+        raw = obj.encode()
+        back = g.extract(g.pdu_class(spec['t']).decode(raw))
+        return raw, canon(back)
+
+    def op_send(cf, M, n, as_file, salt):
+        spec = {'cf': cf, 'fields': default_fields(cf, salt), 'data': patterned(n, salt) if n else None}
+        msg = dg.build_msg(spec, 'bytesio' if as_file else 'bytes')
+        assoc = dg.make_assoc(M)
+        assoc.send(msg, 1 + 2 * salt)
+        return [bytes(v.data_value) for p in assoc.dul.sent[0] for v in p.data_value_items]
+
+    def op_status(code, cmd):
+        st_ = statuses.Status(code, cmd)
+        return st_.status_type, int(st_)
+
+    ops = []
+    for k in range(6):
+        pdvs = [{'id': 1 + 2 * j, 'data': patterned(3000 + 500 * k + j, k + j)} for j in range(4)]
+        ops.append(('pdu', op_pdu, ({'t': 4, 'r': 0, 'pdvs': pdvs},)))
+    ops.append(('pdu', op_pdu, (convs.RQ_SPEC,)))
+    ops.append(('pdu', op_pdu, (convs.AC_SPEC,)))
+    for k, cf in enumerate((0x0001, 0x8020, 0x0020, 0x8021, 0x0130, 0x0110)):
+        ops.append(('send', op_send, (cf, 64 + 8 * k, 700 + 90 * k, False, k)))
+        ops.append(('send-file', op_send, (cf, 70 + 8 * k, 650 + 70 * k, True, k)))
+    for code, cmd in ((0xFF00, dimsemessages.CFindRSPMessage), (0xB000, dimsemessages.CStoreRSPMessage),
+                      (0xFE00, dimsemessages.CGetRSPMessage), (0xC123, dimsemessages.CMoveRSPMessage), (0x0110, None)):
+        ops.append(('status', op_status, (code, cmd)))
+    expected = [fn(*args) for _, fn, args in ops]
+    errors = []
+
+    def worker(t):
+        try:
+            for r in range(rounds):
+                for i in range(len(ops)):
+                    j = (i * 7 + t * 3 + r) % len(ops)
+                    name, fn, args = ops[j]
+                    if fn(*args) != expected[j]:
+                        errors.append((name, j, t, r))
+                        return
+        except Exception as exc:
+            errors.append(('exception:%s' % lib_frame(exc), repr(exc), t, 0))
+    old = sys.getswitchinterval()
+    sys.setswitchinterval(1e-6)
+    try:
+        ths = [threading.Thread(target=worker, args=(t,), daemon=True) for t in range(n_threads)]
+        for t in ths:
+            t.start()
+        for t in ths:
+            t.join(120)
+    finally:
+        sys.setswitchinterval(old)
+    if errors:
+        name = errors[0][0]
+        raise Violation('%s:thread-safety:%s' % (PROP, name), 'operation %r gave a different result when %d threads ran it '
+                        'concurrently (first mismatch: %r)' % (name, n_threads, errors[0][1:]), case)
+    return len(ops) * rounds * n_threads
+
+
+# ------------------------------------------------------------------------------------------------
 # part b: baton-scheduled acceptors on scripted providers
 
 class Baton(object):
@@ -430,6 +504,110 @@ def baton_case(value):
     return switches
 
 
+# ------------------------------------------------------------------------------------------
+# part d: one requesting entity, several associations open at once: negotiated parameters stay apart
+
+NEG_CLASSES = ['1.2.826.0.1.3680043.9.7000.%d' % i for i in range(6)]
+
+
+def negotiation_case(value):
+    """value = (number of classes, [reply pattern per association]); associations are opened nested (all open at
+    the same time) on scripted providers, closed in reverse or in opening order."""
+    import contextlib
+    from pynetdicom2 import applicationentity, exceptions
+    from .. import fakedul as fd
+    ncls, patterns, fifo = value
+    case = {'part': 'negotiation', 'ncls': ncls, 'patterns': patterns, 'fifo': fifo}
+    classes = NEG_CLASSES[:ncls]
+
+    def svc(asce, ctx, *a):
+        return tuple(ctx)
+    ae = applicationentity.ClientAE('CLI', ['1.2.840.10008.1.2', '1.2.840.10008.1.2.1'])
+    ae.add_scu(svc, classes)
+    ae.timeout = 0.01
+
+    def plan_for(pattern):
+        def responder(dul, rec):
+            if rec['kind'] == 'pdu' and rec['spec'].get('t') == 1:
+                pcs = [it for it in rec['spec']['items'] if it['t'] == 0x20]
+                ans = []
+                for k, it in enumerate(pcs):
+                    result, choice = pattern[k % len(pattern)]
+                    ans.append((it['id'], result, it['ts'][choice % len(it['ts'])]['name']))
+                dul.answers = ans
+                dul.proposed = {it['id']: it['abs']['name'] for it in pcs}
+                return [fd.incoming_pdu(fd.ac_spec(ans, 16384, rec['spec']['called'], rec['spec']['calling']))]
+            if rec['kind'] == 'pdu' and rec['spec'].get('t') == 5:
+                return [fd.incoming_pdu({'t': 6, 'r1': 0, 'r2': 0})]
+            return []
+        return lambda d: setattr(d, 'responder', responder)
+    fac = fd.Factory([plan_for(p) for p in patterns])
+
+    def verify(i, assoc, when):
+        dul = fac.instances[i]
+        proposed = sorted(dul.proposed.values())
+        if proposed != sorted(classes):
+            raise Violation('C20:negotiation:proposal', 'association %d (%s) proposed %d of the %d configured classes'
+                            % (i, when, len(proposed), len(classes)), case)
+        want = {cid: (dul.proposed[cid], ts) for cid, result, ts in dul.answers if result == 0}
+        got = {k: (str(v[1]), str(v[2])) for k, v in assoc.accepted_contexts.items()}
+        if got != want:
+            raise Violation('C20:negotiation:accepted', 'association %d (%s): accepted contexts %r, its peer accepted %r'
+                            % (i, when, sorted(got.items()), sorted(want.items())), case)
+        usable = {u: (cid, ts) for cid, (u, ts) in want.items()}
+        for u in classes:
+            try:
+                ctx_ = assoc.get_scu(u)()
+            except exceptions.ClassNotSupportedError:
+                if u in usable:
+                    raise Violation('C20:negotiation:lookup', 'association %d (%s): no service for %s although its peer '
+                                    'accepted context %d' % (i, when, u, usable[u][0]), case)
+                continue
+            except Exception as exc:
+                raise Violation('C20:negotiation:exception:%s' % lib_frame(exc), 'association %d (%s): get_scu raised %r'
+                                % (i, when, exc), case)
+            if u not in usable or (ctx_[0], str(ctx_[2])) != usable[u]:
+                raise Violation('C20:negotiation:lookup', 'association %d (%s): service for %s bound to %r, its own '
+                                'negotiation gave %r' % (i, when, u, ctx_, usable.get(u)), case)
+    with fd.installed(fac):
+        with contextlib.ExitStack() as stack:
+            assocs = []
+            try:
+                for i in range(len(patterns)):
+                    cm = ae.request_association({'aet': 'SRV%d' % i, 'address': 'peer.example', 'port': 104})
+                    assocs.append(stack.enter_context(cm))
+                    for j, a in enumerate(assocs):
+                        verify(j, a, 'after opening %d' % i)
+                if fifo:
+                    # release the oldest first; the remaining ones must be unaffected
+                    assocs[0].release()
+                    for j, a in enumerate(assocs[1:], 1):
+                        verify(j, a, 'after releasing 0')
+            except Violation:
+                raise
+            except Exception as exc:
+                raise Violation('C20:negotiation:exception:%s' % lib_frame(exc), 'requesting %d associations from one '
+                                'entity raised %r' % (len(patterns), exc), case)
+    return len(patterns)
+
+
+negotiation_cases = st.tuples(
+    st.integers(1, 6),
+    st.lists(st.lists(st.tuples(st.sampled_from([0, 0, 1, 2, 3, 4]), st.integers(0, 1)), min_size=1, max_size=6),
+             min_size=2, max_size=4),
+    st.booleans())
+
+
+def run_negotiation(ctx, n):
+    def fn(value):
+        k = negotiation_case(value)
+        results = [{r for r, _ in p} for p in value[1]]
+        ctx.case(('neg', value), any(0 in r for r in results) and any(r - {0} for r in results),
+                 labels=['negotiation', 'associations=%d' % k] + (['refusal-3/4'] if any(r & {3, 4} for r in results) else []),
+                 sample={'classes': value[0], 'patterns': value[1], 'fifo': value[2]})
+    hyp_search(ctx, negotiation_cases, fn, n, name='C20-negotiation')
+
+
 def shard_baton(ctx, job):
     warnings.simplefilter('ignore')
     strat = st.tuples(st.integers(2, 4), st.integers(0, 5), st.lists(st.integers(0, 3), min_size=1, max_size=40))
@@ -465,7 +643,7 @@ def run(ctx):
                 'generator) against one server entity over loopback TCP, R rounds with permuted start order; part b: '
                 '2-4 AssociationAcceptor.handle() bodies sharing one AE on scripted providers, interleaved at every '
                 'provider send/receive and inside every application handler by a baton scheduler whose order is Hypothesis-drawn, each compared with the '
-                'same association run alone; _new_msg_id() from concurrent threads; non-trivial = >=2 associations '
+                'same association run alone; _new_msg_id() from concurrent threads; part c: PDU encode/decode, message fragmentation (bytes and file-like), group-length computation and status classification run in 8 threads under a 1 microsecond switch interval and must equal the single-threaded results; part d: one requesting entity with 2-4 associations open at the same time on scripted peers answering with Hypothesis-drawn result codes 0-4: each association proposes all configured classes and uses exactly what its own peer accepted; non-trivial = >=2 associations '
                 'overlapping (>=2 baton switches / >=2 clients)')
     ctx.assumptions = ['part a samples OS schedules; part b enumerates interleavings at primitive granularity only',
                        'server-side calls are attributed to associations through the handler thread (one thread per association)',
@@ -475,6 +653,13 @@ def run(ctx):
         ctx.case(('msgid',), True, labels=['msg-id'], sample={'threads': 16, 'calls': 200})
     except Violation as v:
         ctx.fail(v.key, v.what, v.case)
+    try:
+        n_ops = thread_stress(8, 400 if ctx.thorough else 60)
+        ctx.case(('thread-stress',), True, labels=['thread-stress'], sample={'threads': 8, 'operations': n_ops})
+        ctx.evaluations += n_ops
+    except Violation as v:
+        ctx.fail(v.key, v.what, v.case)
+    run_negotiation(ctx, 3000 if ctx.thorough else 200)
     s = ctx.seed
     if ctx.thorough:
         rounds = [(n, s * 100 + r) for n in (4, 8, 16, 32) for r in range(5)]
@@ -493,6 +678,10 @@ def replay(case):
             run_round(case['clients'], case['seed'])
         except lb.Inconclusive as inc:
             print('inconclusive: %s' % inc)
+    elif case['part'] == 'thread-stress':
+        thread_stress(8, 200)
+    elif case['part'] == 'negotiation':
+        negotiation_case((case['ncls'], [[tuple(x) for x in p] for p in case['patterns']], case['fifo']))
     elif case['part'] == 'baton':
         baton_case((case['k'], case['variant'], case['order']))
     else:
